@@ -16,6 +16,7 @@ import (
 	"path/filepath"
 	"sort"
 	"strings"
+	"sync"
 	"time"
 
 	"database/sql"
@@ -164,6 +165,7 @@ type runner struct {
 	lastLen int64
 	prevTape []byte
 	saved    map[string][]byte
+	fmu      sync.Mutex
 }
 
 // count-limited listings of every directory: Readdir(n) must return at most n entries, all of them
@@ -791,10 +793,10 @@ func (r *runner) exec(c Call) (ret map[string]interface{}, err error) {
 		var f afero.File
 		f, err = s.OpenFile(c.Name, c.Flags, os.FileMode(c.Perm))
 		if err == nil {
-			r.files[c.H] = f
+			r.setFile(c.H, f)
 		}
 	case "read":
-		f := r.files[c.H]
+		f := r.getFile(c.H)
 		if f == nil {
 			return ret, errors.New("no handle")
 		}
@@ -807,7 +809,7 @@ func (r *runner) exec(c Call) (ret map[string]interface{}, err error) {
 			ret["pieces"] = r.decompose(buf[:n])
 		}
 	case "readat":
-		f := r.files[c.H]
+		f := r.getFile(c.H)
 		if f == nil {
 			return ret, errors.New("no handle")
 		}
@@ -820,7 +822,7 @@ func (r *runner) exec(c Call) (ret map[string]interface{}, err error) {
 			ret["pieces"] = r.decompose(buf[:n])
 		}
 	case "seek":
-		f := r.files[c.H]
+		f := r.getFile(c.H)
 		if f == nil {
 			return ret, errors.New("no handle")
 		}
@@ -828,7 +830,7 @@ func (r *runner) exec(c Call) (ret map[string]interface{}, err error) {
 		o, err = f.Seek(c.Off, c.Whence)
 		ret["off"] = o
 	case "write":
-		f := r.files[c.H]
+		f := r.getFile(c.H)
 		if f == nil {
 			return ret, errors.New("no handle")
 		}
@@ -836,7 +838,7 @@ func (r *runner) exec(c Call) (ret map[string]interface{}, err error) {
 		n, err = f.Write(data)
 		fileRet(n, err)
 	case "writeat":
-		f := r.files[c.H]
+		f := r.getFile(c.H)
 		if f == nil {
 			return ret, errors.New("no handle")
 		}
@@ -844,7 +846,7 @@ func (r *runner) exec(c Call) (ret map[string]interface{}, err error) {
 		n, err = f.WriteAt(data, c.Off)
 		fileRet(n, err)
 	case "writestring":
-		f := r.files[c.H]
+		f := r.getFile(c.H)
 		if f == nil {
 			return ret, errors.New("no handle")
 		}
@@ -852,26 +854,26 @@ func (r *runner) exec(c Call) (ret map[string]interface{}, err error) {
 		n, err = f.WriteString(string(data))
 		fileRet(n, err)
 	case "truncate":
-		f := r.files[c.H]
+		f := r.getFile(c.H)
 		if f == nil {
 			return ret, errors.New("no handle")
 		}
 		err = f.Truncate(c.Off)
 	case "sync":
-		f := r.files[c.H]
+		f := r.getFile(c.H)
 		if f == nil {
 			return ret, errors.New("no handle")
 		}
 		err = f.Sync()
 	case "close":
-		f := r.files[c.H]
+		f := r.getFile(c.H)
 		if f == nil {
 			return ret, errors.New("no handle")
 		}
 		err = f.Close()
-		delete(r.files, c.H)
+		r.setFile(c.H, nil)
 	case "hstat":
-		f := r.files[c.H]
+		f := r.getFile(c.H)
 		if f == nil {
 			return ret, errors.New("no handle")
 		}
@@ -881,7 +883,7 @@ func (r *runner) exec(c Call) (ret map[string]interface{}, err error) {
 			ret["info"] = infoEntry(f.Name(), fi)
 		}
 	case "hreaddir":
-		f := r.files[c.H]
+		f := r.getFile(c.H)
 		if f == nil {
 			return ret, errors.New("no handle")
 		}
@@ -893,7 +895,7 @@ func (r *runner) exec(c Call) (ret map[string]interface{}, err error) {
 		}
 		ret["names"] = names
 	case "hreaddirnames":
-		f := r.files[c.H]
+		f := r.getFile(c.H)
 		if f == nil {
 			return ret, errors.New("no handle")
 		}
@@ -1001,3 +1003,19 @@ func (r *runner) exec(c Call) (ret map[string]interface{}, err error) {
 }
 
 var _ = context.Background
+
+func (r *runner) setFile(h string, f afero.File) {
+	r.fmu.Lock()
+	defer r.fmu.Unlock()
+	if f == nil {
+		delete(r.files, h)
+		return
+	}
+	r.files[h] = f
+}
+
+func (r *runner) getFile(h string) afero.File {
+	r.fmu.Lock()
+	defer r.fmu.Unlock()
+	return r.files[h]
+}
